@@ -21,6 +21,17 @@
 (*   Only meaningful members are listed: no member of an absent OPTIONAL    *)
 (*   component, of an unselected alternative, no element beyond `length`.   *)
 (*                                                                         *)
+(* The subset, per generator (README):                                      *)
+(*   both   BOOLEAN, NULL, INTEGER (lb..ub) that fits int64_t or uint64_t,  *)
+(*          OCTET STRING (SIZE (n | a..b)), BIT STRING (SIZE (n <= 64)),     *)
+(*          ENUMERATED, SEQUENCE with OPTIONAL / DEFAULT, SEQUENCE          *)
+(*          (SIZE (n | a..b)) OF, CHOICE, references (no recursion), an     *)
+(*          extension marker without additions                             *)
+(*   OER    also REAL with the binary32 / binary64 inner subtyping and      *)
+(*          extension additions ("only supported in the OER generator");    *)
+(*          version brackets [[ ]] are not documented and stay outside      *)
+(*   extensible constraints (0..7, ...) have no known maximum size: outside *)
+(*                                                                         *)
 (* REAL descriptors of this family carry  wc : "N" | "B32" | "B64"          *)
 (* (REAL (WITH COMPONENTS { mantissa (..), base (2), exponent (..) }) with  *)
 (* the IEEE 754 binary32 / binary64 bounds of X.696 12.2-12.4).             *)
